@@ -164,39 +164,7 @@ Proof.
     apply Z.mod_unique with (-1); [left; nia | ring].
 Qed.
 
-(* ------------------------------------------------------------------ FixedPoint on raw encodings *)
-Lemma intToFixedPoint_spec sw iw fw v : 0 <= sw -> 1 <= iw -> 0 <= fw ->
-  (0 <= v \/ sw <> 0) -> v <= 2 ^ (iw - 1) ->
-  FixedPoint_intToFixedPoint sw iw fw v = Some (fx_of_int_spec (fx_width sw iw fw) fw v).
-Proof.
-  intros Hs Hi Hf Hv Hmax. unfold FixedPoint_intToFixedPoint, fx_of_int_spec, fx_width.
-  replace ((v <? 0) && (sw =? 0)) with false by (destruct Hv; lia).
-  replace (iw - 1 <? 0) with false by lia. cbv zeta. rewrite shl1 by lia.
-  replace (v >? 2 ^ (iw - 1)) with false by lia.
-  f_equal. change (Z.land ?x (py_shl 1 ?w - 1)) with (trunc w x). rewrite trunc_mod by lia.
-  unfold py_shl; rewrite shiftl_mul by lia. reflexivity.
-Qed.
-
-Lemma fx_zero_ok sw iw fw : 0 <= sw -> 1 <= iw -> 0 <= fw ->
-  exists z, FixedPoint_intToFixedPoint sw iw fw 0 = Some z.
-Proof.
-  intros. eexists. apply intToFixedPoint_spec; lia.
-Qed.
-
-Lemma fx_add_ok sw iw fw a b : 0 <= sw -> 1 <= iw -> 0 <= fw ->
-  FixedPoint_add sw iw fw a b = Some (fx_add_spec (fx_width sw iw fw) a b).
-Proof.
-  intros Hs Hi Hf. unfold FixedPoint_add, FixedPoint_add_gen. destruct (fx_zero_ok sw iw fw Hs Hi Hf) as [z ->].
-  cbv zeta. f_equal. apply (trunc_mod (sw + iw + fw) (a + b)); lia.
-Qed.
-
-Lemma fx_sub_ok sw iw fw a b : 0 <= sw -> 1 <= iw -> 0 <= fw ->
-  FixedPoint_sub sw iw fw a b = Some (fx_sub_spec (fx_width sw iw fw) a b).
-Proof.
-  intros Hs Hi Hf. unfold FixedPoint_sub, FixedPoint_sub_gen. destruct (fx_zero_ok sw iw fw Hs Hi Hf) as [z ->].
-  cbv zeta. f_equal. apply (trunc_mod (sw + iw + fw) (a - b)); lia.
-Qed.
-
+(* ------------------------------------------------------------------ arithmetic used by FixedPoint.mult *)
 (* P = X modulo 2^n, n >= fw + w : dropping fw low bits and keeping w bits gives the same *)
 Lemma div_mod_cong P X K n fw w : 0 <= fw -> 0 <= w -> fw + w <= n -> P = X + K * 2 ^ n ->
   (P / 2 ^ fw) mod 2 ^ w = (X / 2 ^ fw) mod 2 ^ w.
@@ -206,47 +174,6 @@ Proof.
     by (rewrite <- !Z.pow_add_r by lia; f_equal; lia).
   rewrite !Z.mul_assoc. rewrite Z.div_add by (apply Z.pow_nonzero; lia).
   rewrite Z.mod_add by (apply Z.pow_nonzero; lia). reflexivity.
-Qed.
-
-Lemma fx_mult_ok sw iw fw a b : 0 <= sw -> 1 <= iw -> 0 <= fw ->
-  FixedPoint_mult sw iw fw a b = Some (fx_mult_spec (fx_width sw iw fw) fw a b).
-Proof.
-  intros Hs Hi Hf. unfold FixedPoint_mult, FixedPoint_mult_gen. destruct (fx_zero_ok sw iw fw Hs Hi Hf) as [z ->].
-  cbv zeta. f_equal. unfold fx_mult_spec, fx_width. set (w := sw + iw + fw).
-  assert (Hw : 1 <= w) by (unfold w; lia).
-  change (Z.land ?x (py_shl 1 w - 1)) with (trunc w x). rewrite trunc_mod by lia.
-  unfold py_shr. rewrite shiftr_div by lia.
-  rewrite !signExtend_char by lia. unfold sign_extend_spec, c2_encode.
-  set (sa := c2_decode w a). set (sb := c2_decode w b).
-  apply div_mod_cong with (K := - sa * (sb / 2 ^ (w * 2)) - sb * (sa / 2 ^ (w * 2)) + (sa / 2 ^ (w * 2)) * (sb / 2 ^ (w * 2)) * 2 ^ (w * 2)) (n := w * 2);
-    try (unfold w; lia).
-  pose proof (pow2_pos (w * 2) ltac:(lia)) as Hp.
-  rewrite (Z.mod_eq sa (2 ^ (w * 2))), (Z.mod_eq sb (2 ^ (w * 2))) by lia. ring.
-Qed.
-
-(* with an unsigned format (sw = 0) the top bit is still read as a sign; below it the plain product is obtained *)
-Lemma fx_mult_small sw iw fw a b : 0 <= sw -> 1 <= iw -> 0 <= fw ->
-  let w := fx_width sw iw fw in
-  0 <= a < 2 ^ (w - 1) -> 0 <= b < 2 ^ (w - 1) ->
-  FixedPoint_mult sw iw fw a b = Some (((a * b) / 2 ^ fw) mod 2 ^ w).
-Proof.
-  intros Hs Hi Hf w Ha Hb. rewrite fx_mult_ok by lia. unfold fx_mult_spec. fold w.
-  assert (Hw : 1 <= w) by (unfold w, fx_width; lia).
-  pose proof (pow2_split w ltac:(lia)).
-  assert (Hd : forall x, 0 <= x < 2 ^ (w - 1) -> c2_decode w x = x).
-  { intros x Hx. unfold c2_decode, sgn. rewrite Z.mod_small by lia. destruct (Z.ltb_spec x (2 ^ (w - 1))); lia. }
-  rewrite !Hd by lia. reflexivity.
-Qed.
-
-Lemma fx_mult_unsigned_topbit :    (* FixedPoint(0,2,1, 2).mult(FixedPoint(0,2,1, 0.5)) : raw 4 * raw 1 -> raw 6 (3.0), plain product would be raw 2 (1.0) *)
-  FixedPoint_mult 0 2 1 4 1 = Some 6 /\ ((4 * 1) / 2 ^ 1) mod 2 ^ 3 = 2.
-Proof. vm_compute. split; reflexivity. Qed.
-
-(* finding #23: with no integer bits every operation raises (the model returns None) *)
-Lemma fx_iw0_raises sw fw a b : FixedPoint_add sw 0 fw a b = None /\ FixedPoint_sub sw 0 fw a b = None /\ FixedPoint_mult sw 0 fw a b = None.
-Proof.
-  unfold FixedPoint_add, FixedPoint_sub, FixedPoint_mult, FixedPoint_add_gen, FixedPoint_sub_gen, FixedPoint_mult_gen, FixedPoint_intToFixedPoint.
-  replace ((0 <? 0) && (sw =? 0)) with false by reflexivity. cbn [Z.sub Z.opp Z.add Z.ltb Z.compare Z.pos_sub]. repeat split.
 Qed.
 
 (* ------------------------------------------------------------------ field pack / unpack, any format *)
@@ -415,12 +342,12 @@ Proof.
   rewrite Z.div_small by lia. reflexivity.
 Qed.
 
-(* ------------------------------------------------------------------ FixedPoint after the repair of finding #23: iw = 0 allowed *)
-Lemma intToFixedPoint_r_spec sw iw fw v : 0 <= sw -> 0 <= iw -> 0 <= fw ->
+(* ------------------------------------------------------------------ FixedPoint on raw encodings (every format, iw = 0 included) *)
+Lemma intToFixedPoint_spec sw iw fw v : 0 <= sw -> 0 <= iw -> 0 <= fw ->
   (0 <= v \/ sw <> 0) -> v <= 2 ^ iw / 2 ->
-  FixedPoint_intToFixedPoint_r sw iw fw v = Some (fx_of_int_spec (fx_width sw iw fw) fw v).
+  FixedPoint_intToFixedPoint sw iw fw v = Some (fx_of_int_spec (fx_width sw iw fw) fw v).
 Proof.
-  intros Hs Hi Hf Hv Hmax. unfold FixedPoint_intToFixedPoint_r, fx_of_int_spec, fx_width.
+  intros Hs Hi Hf Hv Hmax. unfold FixedPoint_intToFixedPoint, fx_of_int_spec, fx_width.
   replace ((v <? 0) && (sw =? 0)) with false by (destruct Hv; lia).
   replace (iw <? 0) with false by lia. cbv zeta. rewrite shl1 by lia.
   unfold py_shr. rewrite shiftr_div by lia. change (2 ^ 1) with 2.
@@ -429,41 +356,41 @@ Proof.
   unfold py_shl; rewrite shiftl_mul by lia. reflexivity.
 Qed.
 
-(* for iw >= 1 the repaired constructor is the old one *)
-Lemma intToFixedPoint_r_same sw iw fw v : 1 <= iw ->
-  FixedPoint_intToFixedPoint_r sw iw fw v = FixedPoint_intToFixedPoint sw iw fw v.
+(* HISTORY: for iw >= 1 the constructor before 6fe767a computed the same *)
+Lemma intToFixedPoint_same_as_before sw iw fw v : 1 <= iw ->
+  FixedPoint_intToFixedPoint sw iw fw v = FixedPoint_intToFixedPoint_before_6fe767a sw iw fw v.
 Proof.
-  intros Hi. unfold FixedPoint_intToFixedPoint_r, FixedPoint_intToFixedPoint.
+  intros Hi. unfold FixedPoint_intToFixedPoint, FixedPoint_intToFixedPoint_before_6fe767a.
   replace (iw <? 0) with false by lia. replace (iw - 1 <? 0) with false by lia. cbv zeta.
   rewrite (shl1 iw), (shl1 (iw - 1)) by lia. unfold py_shr. rewrite shiftr_div by lia. change (2 ^ 1) with 2.
   rewrite (pow2_split iw) by lia. rewrite Z.mul_comm, Z.div_mul by lia. reflexivity.
 Qed.
 
-Lemma fx_zero_ok_r sw iw fw : 0 <= sw -> 0 <= iw -> 0 <= fw ->
-  exists z, FixedPoint_intToFixedPoint_r sw iw fw 0 = Some z.
+Lemma fx_zero_ok sw iw fw : 0 <= sw -> 0 <= iw -> 0 <= fw ->
+  exists z, FixedPoint_intToFixedPoint sw iw fw 0 = Some z.
 Proof.
-  intros. eexists. apply intToFixedPoint_r_spec; first [lia | apply Z.div_pos; [apply Z.pow_nonneg|]; lia].
+  intros. eexists. apply intToFixedPoint_spec; first [lia | apply Z.div_pos; [apply Z.pow_nonneg|]; lia].
 Qed.
 
-Lemma fx_add_r_ok sw iw fw a b : 0 <= sw -> 0 <= iw -> 0 <= fw ->
-  FixedPoint_add_r sw iw fw a b = Some (fx_add_spec (fx_width sw iw fw) a b).
+Lemma fx_add_ok sw iw fw a b : 0 <= sw -> 0 <= iw -> 0 <= fw ->
+  FixedPoint_add sw iw fw a b = Some (fx_add_spec (fx_width sw iw fw) a b).
 Proof.
-  intros Hs Hi Hf. unfold FixedPoint_add_r, FixedPoint_add_gen. destruct (fx_zero_ok_r sw iw fw Hs Hi Hf) as [z ->].
+  intros Hs Hi Hf. unfold FixedPoint_add, FixedPoint_add_gen. destruct (fx_zero_ok sw iw fw Hs Hi Hf) as [z ->].
   cbv zeta. f_equal. apply (trunc_mod (sw + iw + fw) (a + b)); lia.
 Qed.
 
-Lemma fx_sub_r_ok sw iw fw a b : 0 <= sw -> 0 <= iw -> 0 <= fw ->
-  FixedPoint_sub_r sw iw fw a b = Some (fx_sub_spec (fx_width sw iw fw) a b).
+Lemma fx_sub_ok sw iw fw a b : 0 <= sw -> 0 <= iw -> 0 <= fw ->
+  FixedPoint_sub sw iw fw a b = Some (fx_sub_spec (fx_width sw iw fw) a b).
 Proof.
-  intros Hs Hi Hf. unfold FixedPoint_sub_r, FixedPoint_sub_gen. destruct (fx_zero_ok_r sw iw fw Hs Hi Hf) as [z ->].
+  intros Hs Hi Hf. unfold FixedPoint_sub, FixedPoint_sub_gen. destruct (fx_zero_ok sw iw fw Hs Hi Hf) as [z ->].
   cbv zeta. f_equal. apply (trunc_mod (sw + iw + fw) (a - b)); lia.
 Qed.
 
 (* mult sign-extends from bit w-1: the format needs at least one bit (w = 0: `v >> -1` raises) *)
-Lemma fx_mult_r_ok sw iw fw a b : 0 <= sw -> 0 <= iw -> 0 <= fw -> 1 <= sw + iw + fw ->
-  FixedPoint_mult_r sw iw fw a b = Some (fx_mult_spec (fx_width sw iw fw) fw a b).
+Lemma fx_mult_ok sw iw fw a b : 0 <= sw -> 0 <= iw -> 0 <= fw -> 1 <= sw + iw + fw ->
+  FixedPoint_mult sw iw fw a b = Some (fx_mult_spec (fx_width sw iw fw) fw a b).
 Proof.
-  intros Hs Hi Hf Hw1. unfold FixedPoint_mult_r, FixedPoint_mult_gen. destruct (fx_zero_ok_r sw iw fw Hs Hi Hf) as [z ->].
+  intros Hs Hi Hf Hw1. unfold FixedPoint_mult, FixedPoint_mult_gen. destruct (fx_zero_ok sw iw fw Hs Hi Hf) as [z ->].
   cbv zeta. f_equal. unfold fx_mult_spec, fx_width. set (w := sw + iw + fw).
   assert (Hw : 1 <= w) by (unfold w; lia).
   change (Z.land ?x (py_shl 1 w - 1)) with (trunc w x). rewrite trunc_mod by lia.
@@ -474,4 +401,32 @@ Proof.
     try (unfold w; lia).
   pose proof (pow2_pos (w * 2) ltac:(lia)) as Hp.
   rewrite (Z.mod_eq sa (2 ^ (w * 2))), (Z.mod_eq sb (2 ^ (w * 2))) by lia. ring.
+Qed.
+
+(* with an unsigned format (sw = 0) the top bit is still read as a sign; below it the plain product is obtained *)
+Lemma fx_mult_small sw iw fw a b : 0 <= sw -> 0 <= iw -> 0 <= fw -> 1 <= sw + iw + fw ->
+  let w := fx_width sw iw fw in
+  0 <= a < 2 ^ (w - 1) -> 0 <= b < 2 ^ (w - 1) ->
+  FixedPoint_mult sw iw fw a b = Some (((a * b) / 2 ^ fw) mod 2 ^ w).
+Proof.
+  intros Hs Hi Hf Hw1 w Ha Hb. rewrite fx_mult_ok by lia. unfold fx_mult_spec. fold w.
+  assert (Hw : 1 <= w) by (unfold w, fx_width; lia).
+  pose proof (pow2_split w ltac:(lia)).
+  assert (Hd : forall x, 0 <= x < 2 ^ (w - 1) -> c2_decode w x = x).
+  { intros x Hx. unfold c2_decode, sgn. rewrite Z.mod_small by lia. destruct (Z.ltb_spec x (2 ^ (w - 1))); lia. }
+  rewrite !Hd by lia. reflexivity.
+Qed.
+
+Lemma fx_mult_unsigned_topbit :    (* FixedPoint(0,2,1, 2).mult(FixedPoint(0,2,1, 0.5)) : raw 4 * raw 1 -> raw 6 (3.0), plain product would be raw 2 (1.0) *)
+  FixedPoint_mult 0 2 1 4 1 = Some 6 /\ ((4 * 1) / 2 ^ 1) mod 2 ^ 3 = 2.
+Proof. vm_compute. split; reflexivity. Qed.
+
+(* HISTORY (finding #23, repaired by 6fe767a): with the old constructor every operation raised for iw = 0 *)
+Lemma fx_iw0_raised_before sw fw a b :
+  FixedPoint_add_gen FixedPoint_intToFixedPoint_before_6fe767a sw 0 fw a b = None /\
+  FixedPoint_sub_gen FixedPoint_intToFixedPoint_before_6fe767a sw 0 fw a b = None /\
+  FixedPoint_mult_gen FixedPoint_intToFixedPoint_before_6fe767a sw 0 fw a b = None.
+Proof.
+  unfold FixedPoint_add_gen, FixedPoint_sub_gen, FixedPoint_mult_gen, FixedPoint_intToFixedPoint_before_6fe767a.
+  replace ((0 <? 0) && (sw =? 0)) with false by reflexivity. cbn [Z.sub Z.opp Z.add Z.ltb Z.compare Z.pos_sub]. repeat split.
 Qed.
